@@ -163,6 +163,31 @@ pub fn run(ctx: &Ctx, order: bool) -> Result<Evidence, String> {
             xcases.push((ast, t, Doc::new(&d)));
         }
     }
+    // unions of two slices with every combination of small bounds over arrays shorter than,
+    // as long as and longer than the bounds reach (child form on two arrays, descendant form on a
+    // nested document; a union with an index on either side for a sample)
+    {
+        let arr = |n: i64| J::Arr((0..n).map(J::int).collect());
+        let small_j = [arr(3), arr(6)];
+        let nested_j = J::Obj(vec![("k".into(), arr(5)), ("m".into(), J::Arr(vec![arr(7), arr(1), J::Obj(vec![("k".into(), arr(4))])]))]);
+        for (n, u) in gen::slice_pair_queries().iter().enumerate() {
+            let mut texts = vec![format!("${}", u), format!("$..{}", u)];
+            if n % 5 == 0 {
+                texts.push(format!("$..[4,{},0]", &u[1..u.len() - 1]));
+            }
+            for (k, t) in texts.iter().enumerate() {
+                if let Some(ast) = analyze(t).ast {
+                    if k == 0 {
+                        for d in &small_j {
+                            xcases.push((ast.clone(), t.clone(), Doc::new(d)));
+                        }
+                    } else {
+                        xcases.push((ast, t.clone(), Doc::new(&nested_j)));
+                    }
+                }
+            }
+        }
+    }
     let n_x = xcases.len();
     let seed = ctx.seed;
     let trace_every = 7usize;
